@@ -607,7 +607,11 @@ class ModulePrinter(ExpressionPrinter):
 
         if node.guard is not None:
             self.printer.keyword('if')
-            self.visit(node.guard)
+            if isinstance(node.guard, ast.NamedExpr):
+                # An unparenthesized assignment expression is allowed as a guard
+                self.visit(node.guard)
+            else:
+                self._expression(node.guard)
 
         self.printer.delimiter(':')
         self._suite(node.body)
